@@ -56,6 +56,10 @@ type loginPlan struct {
 	RemotePw []string `json:"remote_pw_hex,omitempty"`
 	Host     string   `json:"host"`
 	App      string   `json:"app"`
+	// Twin: a second login (own connection, own credentials, same server script) runs concurrently.
+	Twin         bool     `json:"twin,omitempty"`
+	TwinPassword string   `json:"twin_password_hex,omitempty"`
+	TwinRemotePw []string `json:"twin_remote_pw_hex,omitempty"`
 }
 
 const (
@@ -405,6 +409,7 @@ type loginObs struct {
 	sent       []ClientMsg
 	randLog    []simrt.RandDraw
 	cfgErr     string
+	twin       *loginObs
 }
 
 func runLogin(p *loginPlan, schedSeed uint64, replay []simrt.Choice, lenient, keepLog bool) (*loginObs, *simrt.Outcome, *TDSPeer) {
@@ -415,41 +420,50 @@ func runLogin(p *loginPlan, schedSeed uint64, replay []simrt.Choice, lenient, ke
 	}
 	s := simrt.New(cfg)
 	pr := NewTDSPeer(s)
-	pr.Async = p.Async
-	reply := func(items []lPkg, trunc int, cuts []int) {
-		eom := true
-		if trunc >= 0 {
-			if trunc < len(items) {
-				items = items[:trunc]
+	wire := func(pr *TDSPeer) {
+		pr.Async = p.Async
+		reply := func(items []lPkg, trunc int, cuts []int) {
+			eom := true
+			if trunc >= 0 {
+				if trunc < len(items) {
+					items = items[:trunc]
+				}
+				eom = false
+				s.Fault("reply-truncated")
 			}
-			eom = false
-			s.Fault("reply-truncated")
+			var body []byte
+			for _, it := range items {
+				body = append(body, it.encode(p)...)
+			}
+			if len(body) == 0 && !eom {
+				return
+			}
+			pr.SendPackets(peer.Packetise(body, cuts, peer.BufResponse, 0, eom))
 		}
-		var body []byte
-		for _, it := range items {
-			body = append(body, it.encode(p)...)
+		pr.OnMsg = func(m *ClientMsg) {
+			switch {
+			case len(m.Body) > 0 && m.Body[0] == 0x71: // logout
+				pr.SendPackets(peer.Packetise(peer.Done(0, 0, 0), nil, peer.BufResponse, 0, true))
+			case m.Index == 0:
+				reply(p.Phase1, p.Trunc1, p.Cuts1)
+			case m.Index == 1 && p.Encrypted:
+				reply(p.Phase2, p.Trunc2, p.Cuts2)
+			}
 		}
-		if len(body) == 0 && !eom {
-			return
-		}
-		pr.SendPackets(peer.Packetise(body, cuts, peer.BufResponse, 0, eom))
 	}
-	pr.OnMsg = func(m *ClientMsg) {
-		switch {
-		case len(m.Body) > 0 && m.Body[0] == 0x71: // logout
-			pr.SendPackets(peer.Packetise(peer.Done(0, 0, 0), nil, peer.BufResponse, 0, true))
-		case m.Index == 0:
-			reply(p.Phase1, p.Trunc1, p.Cuts1)
-		case m.Index == 1 && p.Encrypted:
-			reply(p.Phase2, p.Trunc2, p.Cuts2)
-		}
+	wire(pr)
+	pr.NewSub = func(c *simrt.Conn) *TDSPeer {
+		sp := SubPeer(s, c)
+		wire(sp)
+		return sp
 	}
 	s.Net.Setup = func(c *simrt.Conn) { c.ReadSizes = p.ReadSizes }
 	obs := &loginObs{}
-	out := s.Run(func() {
+	twin := &loginObs{}
+	client := func(obs *loginObs, user, password string, remotePw []string) {
 		info := MkInfo(100, 5, false)
-		info.Username = p.User
-		info.Password = string(unhex(p.Password))
+		info.Username = user
+		info.Password = password
 		info.ClientHostname = p.Host
 		conn, err := tds.NewConn(context.Background(), info)
 		if err != nil {
@@ -471,7 +485,7 @@ func runLogin(p *loginPlan, schedSeed uint64, replay []simrt.Choice, lenient, ke
 			lc.Encrypt = 0
 		}
 		for i := range p.RemoteN {
-			lc.RemoteServers = append(lc.RemoteServers, tds.LoginConfigRemoteServer{Name: p.RemoteN[i], Password: string(unhex(p.RemotePw[i]))})
+			lc.RemoteServers = append(lc.RemoteServers, tds.LoginConfigRemoteServer{Name: p.RemoteN[i], Password: string(unhex(remotePw[i]))})
 		}
 		ctx, cancel := simrt.WithTimeout(context.Background(), 30*time.Second)
 		defer cancel()
@@ -499,9 +513,40 @@ func runLogin(p *loginPlan, schedSeed uint64, replay []simrt.Choice, lenient, ke
 			obs.closeErr = err.Error()
 		}
 		obs.closeOK = true
+	}
+	out := s.Run(func() {
+		var tw *simrt.Task
+		if p.Twin {
+			tw = simrt.Spawn("twin", func() { client(twin, twinUser(p.User), string(unhex(p.TwinPassword)), p.TwinRemotePw) })
+		}
+		client(obs, p.User, string(unhex(p.Password)), p.RemotePw)
+		if tw != nil {
+			simrt.Join(tw)
+		}
 	})
-	obs.sent = pr.Msgs
 	obs.randLog = s.RandLog()
+	// which connection belongs to which login is decided by the schedule: tell them apart by the user name
+	peers := []*TDSPeer{pr}
+	for _, sp := range pr.Subs {
+		peers = append(peers, sp)
+	}
+	for _, q := range peers {
+		owner := obs
+		if len(q.Msgs) > 0 {
+			if f, _, err := parseLoginRecord(q.Msgs[0].Body); err == nil && strings.HasPrefix(string(f["lusername"].value), "twin_") {
+				owner = twin
+			}
+		} else if p.Twin && len(peers) > 1 && q != pr {
+			owner = twin
+		}
+		if len(owner.sent) == 0 {
+			owner.sent = q.Msgs
+		}
+	}
+	if p.Twin {
+		twin.randLog = obs.randLog
+		obs.twin = twin
+	}
 	return obs, out, pr
 }
 
@@ -805,6 +850,14 @@ func (c09) Gen(r *Rand, idx int, tier string) interface{} {
 	if p.Edit == "none" || p.Edit == "" {
 		p.Edit = "random"
 	}
+	if encrypted && r.Pct(25) {
+		// a second login runs concurrently on its own connection with its own secrets
+		p.Twin = true
+		p.TwinPassword = hexOf(marker(pwLen()))
+		for i := 0; i < p.Remote; i++ {
+			p.TwinRemotePw = append(p.TwinRemotePw, hexOf(marker(pwLen())))
+		}
+	}
 	// secrets that do not fit into one RSA block: the encryption fails and the error path must not leak either
 	if encrypted && r.Pct(12) {
 		over := marker(capacity + 1 + r.Intn(24))
@@ -1078,228 +1131,247 @@ func (c09) Run(plan interface{}, schedSeed uint64, replay []simrt.Choice, lenien
 	if out.Budget {
 		return v, out
 	}
-	pw := unhex(p.Password)
-	var secrets [][]byte
-	secrets = append(secrets, pw)
-	for _, x := range p.RemotePw {
-		secrets = append(secrets, unhex(x))
-	}
-	where := fmt.Sprintf("edit [%s], encrypted=%v, key %d bits, nonce %d, password %d bytes, %d remote servers", p.Edit, p.Encrypted, p.KeyBits, p.NonceLen, len(pw), p.Remote)
-	for _, c := range out.Crashes {
-		v.Violate("panic", "panic "+CrashSig(c), "%s: task %s panicked: %s\n%s", where, c.Task, c.Value, c.Stack)
-	}
-	if obs.cfgErr != "" {
-		for _, s := range secrets {
-			if len(s) >= 8 && strings.Contains(obs.cfgErr, string(s)) {
-				v.Violate("leak-in-error", "password in configuration error", "%s: NewLoginConfig error contains the password", where)
-			}
+	judge := func(obs *loginObs, passwordHex string, remotePwHex []string, user string) {
+		pw := unhex(passwordHex)
+		var secrets [][]byte
+		secrets = append(secrets, pw)
+		for _, x := range remotePwHex {
+			secrets = append(secrets, unhex(x))
 		}
-		return v, out
-	}
-	if len(obs.sent) == 0 {
-		v.Machinery = "the client sent nothing"
-		return v, out
-	}
-	configured := map[string]string{"lhostname": p.Host, "lusername": p.User, "lappname": p.App}
-	// every byte the client wrote during login
-	first := obs.sent[0].Body
-	fields, n, err := parseLoginRecord(first)
-	if err != nil {
-		v.Violate("unexplained-bytes", "login record does not parse", "%s: %v", where, err)
-		return v, out
-	}
-	toks1, err := parseClientTokens(first[n:], n)
-	if err != nil {
-		v.Violate("unexplained-bytes", "bytes after the login record not explained", "%s: %v", where, err)
-	}
-	if len(toks1) != 1 || toks1[0].tok != 0xE2 {
-		v.Violate("unexplained-bytes", "first message is not login record + capability token", "%s: %d tokens after the login record", where, len(toks1))
-	}
-	if !p.Encrypted {
-		// control: the plain flow does carry the password in its slot
-		if string(fields["lpw"].value) == string(pw) {
-			v.Probe("control:plain-password-found-in-slot")
-		} else {
-			v.Violate("control-failed", "control: plain flow password not in its slot", "%s: the password slot holds %q", where, fields["lpw"].value)
+		where := fmt.Sprintf("edit [%s], encrypted=%v, key %d bits, nonce %d, password %d bytes, %d remote servers", p.Edit, p.Encrypted, p.KeyBits, p.NonceLen, len(pw), p.Remote)
+		for _, c := range out.Crashes {
+			v.Violate("panic", "panic "+CrashSig(c), "%s: task %s panicked: %s\n%s", where, c.Task, c.Value, c.Stack)
 		}
-		v.Sample = map[string]interface{}{"control": true, "password_len": len(pw)}
-		return v, out
-	}
-	// (2) slots empty
-	if len(fields["lpw"].value) != 0 || !bytes.Equal(fields["lpw"].raw, make([]byte, 30)) {
-		v.Violate("clear-password", "password slot not empty under encryption", "%s: the login record's password slot holds %x", where, fields["lpw"].raw)
-	}
-	if len(fields["lrempw"].value) != 0 || !bytes.Equal(fields["lrempw"].raw, make([]byte, 255)) {
-		v.Violate("clear-password", "remote password slot not empty under encryption", "%s: the remote password slot is not empty", where)
-	}
-	// (3) markers nowhere in the written bytes outside fields configured to contain them
-	var allWritten []byte
-	for _, m := range obs.sent {
-		if len(m.Body) > 0 && m.Body[0] == 0x71 {
-			continue
+		if out.Races > 0 {
+			v.Violate("race", "race", "%s: the race detector reported %d data race(s) on this schedule", where, out.Races)
 		}
-		allWritten = append(allWritten, m.Body...)
-	}
-	for si, s := range secrets {
-		if len(s) < 8 {
-			continue
-		}
-		idx := 0
-		for {
-			k := bytes.Index(allWritten[idx:], s)
-			if k < 0 {
-				break
-			}
-			at := idx + k
-			explained := false
-			for name, val := range configured {
-				f := fields[name]
-				if strings.Contains(val, string(s)) && at >= f.off && at+len(s) <= f.off+len(f.raw) {
-					explained = true
+		if obs.cfgErr != "" {
+			for _, s := range secrets {
+				if len(s) >= 8 && strings.Contains(obs.cfgErr, string(s)) {
+					v.Violate("leak-in-error", "password in configuration error", "%s: NewLoginConfig error contains the password", where)
 				}
 			}
-			if !explained {
-				v.Violate("clear-password", "password bytes on the wire", "%s: secret #%d appears in clear at offset %d of the bytes written", where, si, at)
-			}
-			idx = at + 1
+			return
 		}
-	}
-	// (6) error text
-	if obs.loginErr != nil {
-		for si, s := range secrets {
-			if len(s) >= 8 && strings.Contains(obs.loginErr.Error(), string(s)) {
-				v.Violate("leak-in-error", "password in login error", "%s: the error returned by Login contains secret #%d: %s", where, si, short(obs.loginErr.Error(), 200))
-			}
+		if len(obs.sent) == 0 {
+			v.Machinery = "the client sent nothing"
+			return
 		}
-	}
-	// the second message, if the negotiation got that far
-	if len(obs.sent) >= 2 && len(obs.sent[1].Body) > 0 && obs.sent[1].Body[0] != 0x71 {
-		toks, err := parseClientTokens(obs.sent[1].Body, 0)
+		configured := map[string]string{"lhostname": p.Host, "lusername": user, "lappname": p.App}
+		// every byte the client wrote during login
+		first := obs.sent[0].Body
+		fields, n, err := parseLoginRecord(first)
 		if err != nil {
-			v.Violate("unexplained-bytes", "second login message not explained", "%s: %v", where, err)
-			return v, out
+			v.Violate("unexplained-bytes", "login record does not parse", "%s: %v", where, err)
+			return
 		}
-		_, priv := p.keyPEM()
-		nonce := p.nonce()
-		// expected structure: MSG LOGPWD3(31), PARAMFMT(LONGBINARY), PARAMS; MSG REMPWD3(32), PARAMFMT(VARCHAR,LONGBINARY)*, PARAMS; MSG SYMKEY(34), PARAMFMT(LONGBINARY), PARAMS
-		var cts [][]byte
-		var want [][]byte
-		type msgGroup struct {
-			id   uint16
-			fmtT []byte
-			vals [][]byte
+		toks1, err := parseClientTokens(first[n:], n)
+		if err != nil {
+			v.Violate("unexplained-bytes", "bytes after the login record not explained", "%s: %v", where, err)
 		}
-		var groups []msgGroup
-		// a login that failed half-way leaves its queued packages to be flushed with the logout token: still
-		// attributable bytes, the structure is then a prefix of the three groups followed by LOGOUT
-		if n := len(toks); n > 0 && toks[n-1].tok == 0x71 && obs.loginErr != nil {
-			toks = toks[:n-1]
-			v.Probe("login-leftover-flushed-with-logout")
+		if len(toks1) != 1 || toks1[0].tok != 0xE2 {
+			v.Violate("unexplained-bytes", "first message is not login record + capability token", "%s: %d tokens after the login record", where, len(toks1))
 		}
-		for i := 0; i+2 < len(toks)+0 && i < len(toks); i += 3 {
-			if i+2 >= len(toks) || toks[i].tok != 0x65 || toks[i+1].tok != 0xEC || toks[i+2].tok != 0xD7 {
-				v.Violate("unexplained-bytes", "second login message has unexpected structure", "%s: tokens %v", where, tokList(toks))
-				return v, out
-			}
-			groups = append(groups, msgGroup{binary.LittleEndian.Uint16(toks[i].body[1:]), toks[i+1].cols, toks[i+2].vals})
-		}
-		ids := []uint16{31, 32, 34}
-		okStruct := len(groups) <= 3 && (len(groups) == 3 || obs.loginErr != nil)
-		for i := range groups {
-			if i < 3 && groups[i].id != ids[i] {
-				okStruct = false
-			}
-		}
-		if !okStruct {
-			v.Violate("unexplained-bytes", "second login message has unexpected structure", "%s: tokens %v", where, tokList(toks))
-			return v, out
-		}
-		if len(groups) < 3 {
-			// judge what was sent: pad the missing groups so that the code below skips them
-			v.Probe("partial-second-message")
-		}
-		if len(groups) >= 1 && len(groups[0].vals) != 1 {
-			v.Violate("wrong-credentials", "password message malformed", "%s: %d values in the password message", where, len(groups[0].vals))
-			return v, out
-		}
-		if len(groups) >= 1 {
-			cts = append(cts, groups[0].vals[0])
-			want = append(want, append(append([]byte{}, nonce...), pw...))
-		}
-		// remote servers: the first pair is ("", account password), then the configured ones
-		rn := append([]string{""}, p.RemoteN...)
-		rp := append([][]byte{pw}, secrets[1:]...)
-		if len(groups) >= 2 && len(groups[1].vals) != 2*len(rn) {
-			v.Violate("wrong-credentials", "remote password message has wrong pair count", "%s: %d values for %d servers", where, len(groups[1].vals), len(rn))
-			return v, out
-		}
-		for i := range rn {
-			if len(groups) < 2 {
-				break
-			}
-			if string(groups[1].vals[2*i]) != rn[i] {
-				v.Violate("wrong-credentials", "remote server name mismatch", "%s: pair %d carries name %q, configured %q", where, i, groups[1].vals[2*i], rn[i])
-			}
-			cts = append(cts, groups[1].vals[2*i+1])
-			want = append(want, append(append([]byte{}, nonce...), rp[i]...))
-		}
-		if len(groups) >= 3 {
-			if len(groups[2].vals) != 1 {
-				v.Violate("wrong-credentials", "session key message malformed", "%s", where)
-				return v, out
-			}
-			cts = append(cts, groups[2].vals[0])
-			want = append(want, nil) // session key: checked separately
-		}
-		seeds := map[string]bool{}
-		var draws [][]byte
-		for _, d := range obs.randLog {
-			draws = append(draws, d.Bytes)
-		}
-		isDraw := func(b []byte) bool {
-			for _, d := range draws {
-				if bytes.Equal(d, b) {
-					return true
-				}
-			}
-			return false
-		}
-		for i, ct := range cts {
-			pt, err := rsa.DecryptOAEP(sha1.New(), nil, priv, ct, []byte{})
-			if err != nil {
-				v.Violate("not-decryptable", "ciphertext does not decrypt with RSA-OAEP/SHA-1", "%s: ciphertext #%d: %v", where, i, err)
-				continue
-			}
-			if want[i] != nil {
-				if !bytes.Equal(pt, want[i]) {
-					v.Violate("wrong-plaintext", "ciphertext does not decrypt to nonce followed by the password", "%s: ciphertext #%d decrypts to %d bytes, expected nonce(%d)+secret(%d)", where, i, len(pt), len(nonce), len(want[i])-len(nonce))
-				}
+		if !p.Encrypted {
+			// control: the plain flow does carry the password in its slot
+			if string(fields["lpw"].value) == string(pw) {
+				v.Probe("control:plain-password-found-in-slot")
 			} else {
-				if len(pt) != len(nonce)+32 || !bytes.Equal(pt[:len(nonce)], nonce) {
-					v.Violate("wrong-plaintext", "session key is not nonce followed by 32 bytes", "%s: session key plaintext has %d bytes", where, len(pt))
-				} else if !isDraw(pt[len(nonce):]) {
-					v.Violate("stale-randomness", "session key is not a fresh random draw", "%s: the 32 session key bytes are not one of the %d random draws of this login", where, len(draws))
-				}
+				v.Violate("control-failed", "control: plain flow password not in its slot", "%s: the password slot holds %q", where, fields["lpw"].value)
 			}
-			seed, err := oaepSeed(priv, ct)
-			if err != nil {
-				v.Violate("not-decryptable", "OAEP seed not recoverable", "%s: %v", where, err)
+			v.Sample = map[string]interface{}{"control": true, "password_len": len(pw)}
+			return
+		}
+		// (2) slots empty
+		if len(fields["lpw"].value) != 0 || !bytes.Equal(fields["lpw"].raw, make([]byte, 30)) {
+			v.Violate("clear-password", "password slot not empty under encryption", "%s: the login record's password slot holds %x", where, fields["lpw"].raw)
+		}
+		if len(fields["lrempw"].value) != 0 || !bytes.Equal(fields["lrempw"].raw, make([]byte, 255)) {
+			v.Violate("clear-password", "remote password slot not empty under encryption", "%s: the remote password slot is not empty", where)
+		}
+		// (3) markers nowhere in the written bytes outside fields configured to contain them
+		var allWritten []byte
+		for _, m := range obs.sent {
+			if len(m.Body) > 0 && m.Body[0] == 0x71 {
 				continue
 			}
-			if seeds[string(seed)] {
-				v.Violate("stale-randomness", "OAEP seed reused", "%s: ciphertext #%d reuses the OAEP seed of an earlier one", where, i)
+			allWritten = append(allWritten, m.Body...)
+		}
+		for si, s := range secrets {
+			if len(s) < 8 {
+				continue
 			}
-			seeds[string(seed)] = true
-			if !isDraw(seed) {
-				v.Violate("stale-randomness", "OAEP seed is not a fresh random draw", "%s: the seed of ciphertext #%d is not among the random draws of this login", where, i)
+			idx := 0
+			for {
+				k := bytes.Index(allWritten[idx:], s)
+				if k < 0 {
+					break
+				}
+				at := idx + k
+				explained := false
+				for name, val := range configured {
+					f := fields[name]
+					if strings.Contains(val, string(s)) && at >= f.off && at+len(s) <= f.off+len(f.raw) {
+						explained = true
+					}
+				}
+				if !explained {
+					v.Violate("clear-password", "password bytes on the wire", "%s: secret #%d appears in clear at offset %d of the bytes written", where, si, at)
+				}
+				idx = at + 1
 			}
 		}
-		v.Nontrivial = fmt.Sprintf("%s|%d|%d|%s", strings.SplitN(p.Edit, " + ", 2)[0], p.Remote, p.KeyBits, p.Class)
-		v.Probe("password-message-decrypted")
+		// (6) error text
+		if obs.loginErr != nil {
+			for si, s := range secrets {
+				if len(s) >= 8 && strings.Contains(obs.loginErr.Error(), string(s)) {
+					v.Violate("leak-in-error", "password in login error", "%s: the error returned by Login contains secret #%d: %s", where, si, short(obs.loginErr.Error(), 200))
+				}
+			}
+		}
+		// the second message, if the negotiation got that far
+		if len(obs.sent) >= 2 && len(obs.sent[1].Body) > 0 && obs.sent[1].Body[0] != 0x71 {
+			toks, err := parseClientTokens(obs.sent[1].Body, 0)
+			if err != nil {
+				v.Violate("unexplained-bytes", "second login message not explained", "%s: %v", where, err)
+				return
+			}
+			_, priv := p.keyPEM()
+			nonce := p.nonce()
+			// expected structure: MSG LOGPWD3(31), PARAMFMT(LONGBINARY), PARAMS; MSG REMPWD3(32), PARAMFMT(VARCHAR,LONGBINARY)*, PARAMS; MSG SYMKEY(34), PARAMFMT(LONGBINARY), PARAMS
+			var cts [][]byte
+			var want [][]byte
+			type msgGroup struct {
+				id   uint16
+				fmtT []byte
+				vals [][]byte
+			}
+			var groups []msgGroup
+			// a login that failed half-way leaves its queued packages to be flushed with the logout token: still
+			// attributable bytes, the structure is then a prefix of the three groups followed by LOGOUT
+			if n := len(toks); n > 0 && toks[n-1].tok == 0x71 && obs.loginErr != nil {
+				toks = toks[:n-1]
+				v.Probe("login-leftover-flushed-with-logout")
+			}
+			for i := 0; i+2 < len(toks)+0 && i < len(toks); i += 3 {
+				if i+2 >= len(toks) || toks[i].tok != 0x65 || toks[i+1].tok != 0xEC || toks[i+2].tok != 0xD7 {
+					v.Violate("unexplained-bytes", "second login message has unexpected structure", "%s: tokens %v", where, tokList(toks))
+					return
+				}
+				groups = append(groups, msgGroup{binary.LittleEndian.Uint16(toks[i].body[1:]), toks[i+1].cols, toks[i+2].vals})
+			}
+			ids := []uint16{31, 32, 34}
+			okStruct := len(groups) <= 3 && (len(groups) == 3 || obs.loginErr != nil)
+			for i := range groups {
+				if i < 3 && groups[i].id != ids[i] {
+					okStruct = false
+				}
+			}
+			if !okStruct {
+				v.Violate("unexplained-bytes", "second login message has unexpected structure", "%s: tokens %v", where, tokList(toks))
+				return
+			}
+			if len(groups) < 3 {
+				// judge what was sent: pad the missing groups so that the code below skips them
+				v.Probe("partial-second-message")
+			}
+			if len(groups) >= 1 && len(groups[0].vals) != 1 {
+				v.Violate("wrong-credentials", "password message malformed", "%s: %d values in the password message", where, len(groups[0].vals))
+				return
+			}
+			if len(groups) >= 1 {
+				cts = append(cts, groups[0].vals[0])
+				want = append(want, append(append([]byte{}, nonce...), pw...))
+			}
+			// remote servers: the first pair is ("", account password), then the configured ones
+			rn := append([]string{""}, p.RemoteN...)
+			rp := append([][]byte{pw}, secrets[1:]...)
+			if len(groups) >= 2 && len(groups[1].vals) != 2*len(rn) {
+				v.Violate("wrong-credentials", "remote password message has wrong pair count", "%s: %d values for %d servers", where, len(groups[1].vals), len(rn))
+				return
+			}
+			for i := range rn {
+				if len(groups) < 2 {
+					break
+				}
+				if string(groups[1].vals[2*i]) != rn[i] {
+					v.Violate("wrong-credentials", "remote server name mismatch", "%s: pair %d carries name %q, configured %q", where, i, groups[1].vals[2*i], rn[i])
+				}
+				cts = append(cts, groups[1].vals[2*i+1])
+				want = append(want, append(append([]byte{}, nonce...), rp[i]...))
+			}
+			if len(groups) >= 3 {
+				if len(groups[2].vals) != 1 {
+					v.Violate("wrong-credentials", "session key message malformed", "%s", where)
+					return
+				}
+				cts = append(cts, groups[2].vals[0])
+				want = append(want, nil) // session key: checked separately
+			}
+			seeds := map[string]bool{}
+			var draws [][]byte
+			for _, d := range obs.randLog {
+				draws = append(draws, d.Bytes)
+			}
+			isDraw := func(b []byte) bool {
+				for _, d := range draws {
+					if bytes.Equal(d, b) {
+						return true
+					}
+				}
+				return false
+			}
+			for i, ct := range cts {
+				pt, err := rsa.DecryptOAEP(sha1.New(), nil, priv, ct, []byte{})
+				if err != nil {
+					v.Violate("not-decryptable", "ciphertext does not decrypt with RSA-OAEP/SHA-1", "%s: ciphertext #%d: %v", where, i, err)
+					continue
+				}
+				if want[i] != nil {
+					if !bytes.Equal(pt, want[i]) {
+						v.Violate("wrong-plaintext", "ciphertext does not decrypt to nonce followed by the password", "%s: ciphertext #%d decrypts to %d bytes, expected nonce(%d)+secret(%d)", where, i, len(pt), len(nonce), len(want[i])-len(nonce))
+					}
+				} else {
+					if len(pt) != len(nonce)+32 || !bytes.Equal(pt[:len(nonce)], nonce) {
+						v.Violate("wrong-plaintext", "session key is not nonce followed by 32 bytes", "%s: session key plaintext has %d bytes", where, len(pt))
+					} else if !isDraw(pt[len(nonce):]) {
+						v.Violate("stale-randomness", "session key is not a fresh random draw", "%s: the 32 session key bytes are not one of the %d random draws of this login", where, len(draws))
+					}
+				}
+				seed, err := oaepSeed(priv, ct)
+				if err != nil {
+					v.Violate("not-decryptable", "OAEP seed not recoverable", "%s: %v", where, err)
+					continue
+				}
+				if seeds[string(seed)] {
+					v.Violate("stale-randomness", "OAEP seed reused", "%s: ciphertext #%d reuses the OAEP seed of an earlier one", where, i)
+				}
+				seeds[string(seed)] = true
+				if !isDraw(seed) {
+					v.Violate("stale-randomness", "OAEP seed is not a fresh random draw", "%s: the seed of ciphertext #%d is not among the random draws of this login", where, i)
+				}
+			}
+			v.Nontrivial = fmt.Sprintf("%s|%d|%d|%s", strings.SplitN(p.Edit, " + ", 2)[0], p.Remote, p.KeyBits, p.Class)
+			v.Probe("password-message-decrypted")
+		}
 	}
+	judge(obs, p.Password, p.RemotePw, p.User)
+	if obs.twin != nil && v.Class == "" {
+		v.Probe("concurrent-logins")
+		judge(obs.twin, p.TwinPassword, p.TwinRemotePw, twinUser(p.User))
+	}
+	pw := unhex(p.Password)
 	v.Probe("class:" + p.Class)
 	v.Sample = map[string]interface{}{"edit": p.Edit, "key_bits": p.KeyBits, "nonce": p.NonceLen, "password_len": len(pw), "remote": p.Remote, "messages_sent": len(obs.sent)}
 	return v, out
+}
+
+// twinUser is the account name of the concurrent second login.
+func twinUser(u string) string {
+	if len(u) > 20 {
+		u = u[:20]
+	}
+	return "twin_" + u
 }
 
 func tokList(ts []cliToken) []string {
@@ -1317,5 +1389,5 @@ func (c08) RequiredProbes() []string {
 
 // For C09 the control is essential: without plain-flow runs that DO find the password the search could pass vacuously.
 func (c09) RequiredProbes() []string {
-	return []string{"control:plain-password-found-in-slot", "password-message-decrypted"}
+	return []string{"control:plain-password-found-in-slot", "password-message-decrypted", "concurrent-logins"}
 }
